@@ -73,19 +73,19 @@ def lambdaOne (stdin : Bool) (cm : CreateMsg) (sc : Script) (s : LSt R) : LSt R 
     if !sc.walLog then ({ s with done := s.done + 1 }, [⟨id, .error⟩])
     else
       let s1 := { s with lam := s.lam ++ [id] }
-      let (out, fin) := lambdaBody stdin id sc (recorded s1.base id)
+      let b := lambdaBody stdin id sc (recorded s1.base id)
       -- deferred: remove, commit, send the final message, wg.Done
       let s2 := { s1 with base := removeSync id s1.base }
       let s3 := { s2 with lam := s2.lam.erase id, done := s2.done + 1 }
-      (s3, out ++ [fin])
+      (s3, b.1 ++ [b.2])
 
 /-- all workers (the model runs them one after the other; they touch different workloads) -/
 def runAll (stdin : Bool) : List (CreateMsg × Script) → LSt R → LSt R × List Msg
   | [], s => (s, [])
   | (cm, sc) :: rest, s =>
-    let (s1, m1) := lambdaOne stdin cm sc s
-    let (s2, m2) := runAll stdin rest s1
-    (s2, m1 ++ m2)
+    let r1 := lambdaOne stdin cm sc s
+    let r2 := runAll stdin rest r1.1
+    (r2.1, r1.2 ++ r2.2)
 
 /-- the output channel is closed by the task that waits for `wg`: it closes iff every worker called Done -/
 def streamCloses (stdin : Bool) (cms : List (CreateMsg × Script)) (s : LSt R) : Bool :=
